@@ -40,7 +40,10 @@ def verify(chk, name, function, run, post, clause=None, replay=None, encoding="q
         try:
             clauses = post(pr) or []
         except Unsupported as ex:
-            chk.unsupported.append((tag, "postcondition not expressible on this path: %s" % ex))
+            if clause is not None:
+                fallback(chk, tag, function, clause, "postcondition not expressible on this path: %s" % ex)
+            else:
+                chk.unsupported.append((tag, "postcondition not expressible on this path: %s" % ex))
             continue
         hyps = pr.ctx.hyps()       # after post(): evaluating result elements may instantiate loop-summary facts
         chk.definedness_obligations(tag, pr, function, clause, replay, skip=skip_defs)
@@ -104,6 +107,9 @@ def fallback(chk, name, function, clause, why):
     elif fam.get("status") != "pass":
         chk.unsupported.append((name, why + " ; native family: " + str(fam.get("error", fam.get("status")))))
     else:
-        # not proved: the obligation stays undecided, the stand-in found nothing
-        chk.unsupported.append((name, why + " ; bounded native family found no violation (NOT a proof)"))
+        # not proved: the function is outside the verifier's reach on this tree and only the bounded stand-in speaks for it.  This is
+        # the same status as the functions listed as bounded on the unchanged tree: the check reports what was explored (exit 0),
+        # the evidence lists the function under bounded_standins with the reason, and nothing is added to `discharged`.
+        chk.notes.append("BOUNDED-ONLY %s: %s; the bounded native family '%s' found no violation (NOT a proof)" % (name, why, clause))
+        print("BOUNDED-ONLY contract=%s function=%s reason=%s (bounded native family '%s' found no violation; not a proof)" % (name, function, why, clause))
     return []
